@@ -83,7 +83,7 @@ def run(module, cfg, tag, workers=16, simulate=None, depth=None, seed=None, env=
         cfgpath = cfg
     else:
         cfgpath = os.path.join(spec_dir, cfg)
-    cmd = ["java", "-XX:+UseParallelGC", "-Xmx" + heap, "-DTLA-Library=" + LIB]
+    cmd = ["java", "-XX:+UseParallelGC", "-Xss256m", "-Xmx" + heap, "-DTLA-Library=" + LIB]
     if dfs:
         cmd.append("-Dtlc2.tool.queue.IStateQueue=StateDeque")
     cmd += ["-cp", JAR + ":" + DEPS, "tlc2.TLC",
